@@ -2,22 +2,26 @@
 (* The listed properties, phrased over a call e and an outcome o admitted by the
    contract.  TLC checks, for every call in the bounded scope and every admitted
    outcome, that the property holds: "everything the contract allows is safe".
-   The reference results (the Ref operators) are written from the C standard's definitions
-   independently of the contract operators. *)
+   The reference results (the Ref operators) are written from the C standard's
+   definitions independently of the contract operators. *)
 EXTENDS Contract
 
 (* ---- reference semantics, on sequences ---- *)
 RECURSIVE TakeStr(_, _, _)
 \* the string starting at p, looking at no more than lim elements: its characters without NUL
-TakeStr(a, p, lim) == IF lim = 0 \/ p > Len(a) \/ a[p] = 0 THEN <<>> ELSE <<a[p]>> \o TakeStr(a, p + 1, lim - 1)
+TakeStr(a, p, lim) == IF lim <= 0 \/ p > Len(a) \/ a[p] = 0 THEN <<>> ELSE <<a[p]>> \o TakeStr(a, p + 1, lim - 1)
 HasNul(a, p, lim) == \E i \in 0..(lim - 1) : p + i <= Len(a) /\ a[p + i] = 0
 
+StrRefFns == StrCopyFns \ FldFns
 RefCopy(e) ==  \* strcpy / strncpy-with-termination / strcat / strncat result as a sequence incl. NUL
   LET a == e.pre IN
   CASE e.fn \in CopyFns  -> TakeStr(a, e.s, e.dmax) \o <<0>>
     [] e.fn \in NCopyFns -> TakeStr(a, e.s, Min(e.slen, e.dmax)) \o <<0>>
     [] e.fn \in CatFns   -> TakeStr(a, e.d, e.dmax) \o TakeStr(a, e.s, e.dmax) \o <<0>>
     [] e.fn \in NCatFns  -> TakeStr(a, e.d, e.dmax) \o TakeStr(a, e.s, Min(e.slen, e.dmax)) \o <<0>>
+    [] e.fn \in MemCpyFns \cup MemMoveFns -> [j \in 1..e.slen |-> a[e.s + j - 1]]      \* copy through a temporary
+    [] e.fn \in MemSetFns -> [j \in 1..e.n |-> e.c]
+    [] e.fn \in MemZeroFns -> [j \in 1..e.dmax |-> 0]
 
 DestExtent(e) ==
   IF e.d = NULLP \/ e.dmax = HUGE THEN {}
@@ -25,27 +29,31 @@ DestExtent(e) ==
 
 C01_T(e, o) == \A i \in 1..Len(e.pre) : i \notin DestExtent(e) => o.mem[i].k = "same"
 
-C03_T(e, o) == (ProducesString(e.fn) /\ DestUsable(e) /\ ~NoOpByDoc(e))
-                 => \E i \in Rng(e.d, e.dmax) : IsZeroCell(o.mem[i], e.pre[i])
+C03_T(e, o) == /\ (ProducesString(e.fn) /\ DestUsable(e) /\ ~NoOpByDoc(e))
+                    => \E i \in Rng(e.d, e.dmax) : IsZeroCell(o.mem[i], e.pre[i])
+               /\ (InPlaceString(e.fn) /\ DestUsable(e) /\ HasNul(e.pre, e.d, e.dmax))
+                    => \E i \in Rng(e.d, e.dmax) : IsZeroCell(o.mem[i], e.pre[i])
 
 ZeroOrOrig(t) == (t.k = "exact" /\ t.v = 0) \/ t.k = "oz" \/ t.k = "same"
-C04_T(e, o) == (o.cls = "err" /\ DestUsable(e) /\ ~NoOpByDoc(e))
+C04_T(e, o) == (o.cls = "err" /\ DestUsable(e) /\ ~NoOpByDoc(e) /\ CopyLike(e.fn))
                  => /\ o.mem[e.d] = Ex(0, {"C04"})
                     /\ \A i \in Rng(e.d, e.dmax) : ZeroOrOrig(o.mem[i]) \/ (e.slack = 0 /\ o.mem[i].k = "any")
-                    /\ \A i \in 1..Len(e.pre) : i \notin Rng(e.d, e.dmax) => o.mem[i].k = "same"
+                    /\ \A i \in 1..Len(e.pre) : i \notin DestExtent(e) => o.mem[i].k = "same"
 
 C05_T(e, o) == /\ o.cls = "err" => \A hs \in o.h : Len(hs) = 1 /\ (o.rc = {hs[1]} \/ o.rc = {-7777}) /\ hs[1] # EOK
                /\ o.cls = "ok"  => o.h = {<<>>}
-               /\ (e.dmax = HUGE /\ e.d # NULLP) => (o.cls = "err" /\ \A i \in 1..Len(e.pre) : o.mem[i].k = "same")
+               /\ (e.dmax = HUGE /\ e.d # NULLP /\ ~NoOpByDoc(e)) => (o.cls = "err" /\ \A i \in 1..Len(e.pre) : o.mem[i].k = "same")
 
-C06_T(e, o) == (o.cls = "ok" /\ e.fn \in (StrCopyFns \ FldFns) /\ e.d # e.s /\ e.d # NULLP)
+HasRef(e) == e.fn \in StrRefFns \cup MemCpyFns \cup MemMoveFns \cup MemSetFns \cup MemZeroFns
+C06_T(e, o) == (o.cls = "ok" /\ HasRef(e) /\ (e.d # e.s \/ e.fn \notin StrRefFns) /\ e.d # NULLP /\ ~NoOpByDoc(e))
                  => LET ref == RefCopy(e)
-                    IN /\ Len(ref) <= e.dmax                   \* no silent truncation
+                    IN /\ Len(ref) <= e.dmax \/ (e.dbos # UNK /\ Len(ref) <= e.dbos)       \* no silent truncation
                        /\ \A j \in 1..Len(ref) :
                             LET t == o.mem[e.d + j - 1] IN
                             \/ (t.k = "exact" /\ t.v = ref[j])
                             \/ (t.k = "same" /\ e.pre[e.d + j - 1] = ref[j])
                        /\ (e.fn \in StpFns => o.ret = {e.d + Len(ref) - 1})
+                       /\ (e.fn \notin StrRefFns => \A i \in Rng(e.d, e.dmax) : i >= e.d + Len(ref) => o.mem[i].k = "same")
 
 (* overlap regions, from the reference lengths *)
 SrcRead(e) ==  \* elements of src a correct implementation needs to read
@@ -56,14 +64,20 @@ SrcRead(e) ==  \* elements of src a correct implementation needs to read
                [] e.fn \in NCatFns -> Min(e.slen, e.dmax - Len(TakeStr(a, e.d, e.dmax)))
       t == TakeStr(a, e.s, lim)
   IN Rng(e.s, IF Len(t) < lim /\ HasNul(a, e.s, lim) THEN Len(t) + 1 ELSE Len(t))
-C07_T(e, o) == (e.fn \in (StrCopyFns \ FldFns) /\ DestUsable(e) /\ e.s # NULLP /\ e.d # e.s /\ e.slen # HUGE
+C07_T(e, o) ==
+  /\ (e.fn \in StrRefFns /\ DestUsable(e) /\ e.s # NULLP /\ e.d # e.s /\ e.slen # HUGE
                 /\ (e.fn \in CatFns \cup NCatFns => HasNul(e.pre, e.d, e.dmax)))
                  => /\ (Rng(e.d, e.dmax) \cap SrcRead(e) = {} => ESOVRLP \notin o.rc)
                     /\ (LET keep == IF e.fn \in CatFns \cup NCatFns THEN Len(TakeStr(e.pre, e.d, e.dmax)) ELSE 0
                             W == Rng(e.d + keep, Len(RefCopy(e)) - keep)
                         IN (W \cap SrcRead(e) # {} /\ Len(RefCopy(e)) <= e.dmax) => o.cls = "err")
+  /\ (e.fn \in MemCpyFns /\ DestUsable(e) /\ e.s # NULLP /\ e.slen > 0 /\ e.slen <= e.dmax /\ e.d # e.s /\ (e.sbos = UNK \/ e.slen <= e.sbos))
+                 => /\ (Rng(e.d, IF e.dbos # UNK /\ e.dbos > e.dmax THEN e.dbos ELSE e.dmax) \cap Rng(e.s, e.slen) = {} => o.cls = "ok")   \* a known larger dest object counts as the operand
+                    /\ (Rng(e.d, e.slen) \cap Rng(e.s, e.slen) # {} => o.rc = {ESOVRLP})
+  /\ (e.fn \in MemMoveFns /\ DestUsable(e) /\ e.s # NULLP /\ e.slen > 0 /\ e.slen <= e.dmax /\ (e.sbos = UNK \/ e.slen <= e.sbos))
+                 => o.cls = "ok"
 
-C08_T(e, o) == (o.cls = "ok" /\ e.slack = 1 /\ e.fn \in (StrCopyFns \ FldFns) /\ e.d # e.s /\ e.d # NULLP /\ e.slen # 0)
+C08_T(e, o) == (o.cls = "ok" /\ e.slack = 1 /\ e.fn \in StrRefFns /\ e.d # e.s /\ e.d # NULLP /\ e.slen # 0)
                  => \A i \in Rng(e.d, e.dmax) : i >= e.d + Len(RefCopy(e)) - 1 => o.mem[i] = Ex(0, {"C08"}) \/ o.mem[i] = Ex(0, {"C03", "C06"})
 
 AllProps(e, o) == C01_T(e, o) /\ C03_T(e, o) /\ C04_T(e, o) /\ C05_T(e, o) /\ C06_T(e, o) /\ C07_T(e, o) /\ C08_T(e, o)
